@@ -6,6 +6,7 @@ import (
 	"strings"
 	"testing"
 
+	"github.com/tencent/goom/arg"
 	cat "github.com/tencent/goom/internal/zzverif/c09cat"
 	"github.com/tencent/goom/internal/zzverif/vh"
 )
@@ -78,6 +79,88 @@ func c09mParseCall(toks []string) (outs []string, boxes []c09mbox) {
 		boxes = append(boxes, b)
 	}
 	return
+}
+
+// c09mGroup is one `PairRet`: `one <box>` (the bare value, possibly nil) or `list <n> box*n` ([]interface{}{...}).
+type c09mGroup struct {
+	list  bool
+	boxes []c09mbox
+}
+
+func c09mParseGroup(toks []string) (c09mGroup, []string) {
+	switch toks[0] {
+	case "one":
+		b, rest := c09mParseBox(toks[1:])
+		return c09mGroup{boxes: []c09mbox{b}}, rest
+	case "list":
+		n, _ := strconv.Atoi(toks[1])
+		rest := toks[2:]
+		g := c09mGroup{list: true, boxes: []c09mbox{}}
+		for i := 0; i < n; i++ {
+			var b c09mbox
+			b, rest = c09mParseBox(rest)
+			g.boxes = append(g.boxes, b)
+		}
+		return g, rest
+	}
+	panic("bad group " + toks[0])
+}
+
+// value is what the user writes as Pair.Return / as one element of Returns(...).
+func (g c09mGroup) value() interface{} {
+	if !g.list {
+		return g.boxes[0].i
+	}
+	vs := make([]interface{}, len(g.boxes))
+	for i, b := range g.boxes {
+		vs[i] = b.i
+	}
+	return vs
+}
+
+func (g c09mGroup) misflagged(types []reflect.Type) bool {
+	for i, b := range g.boxes {
+		if i < len(types) && c09mMisflagged(b, types[i]) {
+			return true
+		}
+	}
+	return false
+}
+
+// c09mCorpusA finds the one-argument corpus function func(id int) (outs...).
+func c09mCorpusA(outs []string) (fn interface{}, call func(int) []reflect.Value, types []reflect.Type) {
+	for _, o := range outs {
+		types = append(types, cat.ByName(o).Typ)
+	}
+	if len(outs) == 1 {
+		d := cat.ByName(outs[0])
+		return d.RetA, func(id int) []reflect.Value { return []reflect.Value{d.CallRetA(id)} }, types
+	}
+	m := cat.MultiFor(outs)
+	if m == nil {
+		panic("no corpus function for " + strings.Join(outs, ","))
+	}
+	return m.FnA, m.CallA, types
+}
+
+// c09mCallDesc calls the stub and describes what arrived against group g.
+func c09mCallDesc(call func(int) []reflect.Value, id int, g c09mGroup, types []reflect.Type) (string, string) {
+	same := "-"
+	d := cat.Catch("callpanic:", func() string {
+		got := call(id)
+		ds := make([]string, len(got))
+		ss := make([]string, len(got))
+		for i, x := range got {
+			ds[i] = cat.Desc(x)
+			ss[i] = "-"
+			if i < len(g.boxes) {
+				ss[i] = c09mJudge(x, g.boxes[i], types[i])
+			}
+		}
+		same = strings.Join(ss, ",")
+		return "got " + strings.Join(ds, " ")
+	})
+	return d, same
 }
 
 // TestVerifC09 drives the real Return(...)/When(...)/Eval on stubbed corpus functions.
@@ -173,6 +256,81 @@ func TestVerifC09(t *testing.T) {
 					}
 					return s
 				})
+			case "c09.matches":
+				// Return(<zero defaults>).Matches(Pair{Args: 1, Return: R}); call f(1) and f(2)
+				nt, _ := strconv.Atoi(toks[1])
+				outs := toks[2 : 2+nt]
+				g, _ := c09mParseGroup(toks[2+nt:])
+				fn, call, types := c09mCorpusA(outs)
+				dflt := make([]interface{}, len(types))
+				for i, t := range types {
+					dflt[i] = reflect.Zero(t).Interface()
+				}
+				mock := Create()
+				defer mock.Reset()
+				cfg := cat.Catch("cfgpanic:", func() string {
+					mock.Func(fn).Return(dflt...).Matches(arg.Pair{Args: 1, Return: g.value()})
+					return ""
+				})
+				if cfg != "" {
+					return cfg
+				}
+				if g.misflagged(types) {
+					return "cfgok call=unmodelled"
+				}
+				d, same := c09mCallDesc(call, 1, g, types)
+				// the other argument still gets the default (zero) results
+				dz := cat.Catch("callpanic:", func() string {
+					for _, x := range call(2) {
+						if !x.IsZero() {
+							return "false"
+						}
+					}
+					return "true"
+				})
+				res := d + " # same=" + same + " dflt=" + dz
+				if len(outs) == 1 && strings.HasPrefix(d, "got") {
+					x := call(1)[0]
+					if x.Kind() == reflect.Interface {
+						res += " eqnil=" + strconv.FormatBool(x.IsNil())
+					}
+				}
+				return res
+			case "c09.seq":
+				// Returns(g1, g2, ...) then k+1 calls: g1, g2, ..., gk, gk
+				nt, _ := strconv.Atoi(toks[1])
+				outs := toks[2 : 2+nt]
+				k, _ := strconv.Atoi(toks[2+nt])
+				rest := toks[3+nt:]
+				groups := make([]c09mGroup, k)
+				vals := make([]interface{}, k)
+				for i := 0; i < k; i++ {
+					groups[i], rest = c09mParseGroup(rest)
+					vals[i] = groups[i].value()
+				}
+				fn, call, types := c09mCorpusA(outs)
+				mock := Create()
+				defer mock.Reset()
+				cfg := cat.Catch("cfgpanic:", func() string { mock.Func(fn).Returns(vals...); return "" })
+				if cfg != "" {
+					return cfg
+				}
+				for _, g := range groups {
+					if g.misflagged(types) {
+						return "cfgok call=unmodelled"
+					}
+				}
+				var ds, ss []string
+				for i := 0; i <= k; i++ {
+					gi := i
+					if gi >= k {
+						gi = k - 1
+					}
+					d, same := c09mCallDesc(call, i, groups[gi], types)
+					ds = append(ds, d)
+					ss = append(ss, same)
+				}
+				return strings.Join(ds, " | ") + " # same=" + strings.Join(ss, ";")
 			case "c09.when":
 				d := cat.ByName(toks[1])
 				b, _ := c09mParseBox(toks[2:])
